@@ -28,7 +28,9 @@ TOKENS = ["a", "0", "1", "2", "10", "12", "~", "a/b", "é", "a\nb"]
 STEPS = ["0", "1", "2", "3", "4"]
 OFFSETS = ["", "+1", "-1", "+2", "-2", "+10", "-10", "+12", "-12"]
 SUFFIXES = ["", "#", "/a", "/0", "/~0", "/a~1b", "/é", "/a\nb/c"]
-REFUSED = ["00", "01", "0+0", "0-0", "1+0#", "0+01", "0-00/a", "+1", "-1", "", "#", "/a", "0+", "0-#", "a", "0+a"]
+REFUSED = ["00", "01", "0+0", "0-0", "1+0#", "0+01", "0-00/a", "+1", "-1", "", "#", "/a", "0+", "0-#", "a", "0+a",
+           # the draft's digits are ASCII digits
+           "\u0661", "\u0661/a", "0+\u0661", "0-1\u0661#", "\u0660\u0661/a", "1\u0662", "0+\uff11"]
 
 
 def selftest():
